@@ -160,7 +160,7 @@ func main() {
 		ChildTimeout: func(t string) time.Duration { return 25 * time.Minute },
 		MinEvals:     20000,
 		MinDistinct:  500,
-		Require: []string{
+		Require: []string{"appends_requested_at_or_past_the_proof_height", "appends_at_or_past_the_proof_height_refused",
 			"revisions_checked", "renewals_checked", "refreshes_full_checked", "refreshes_partial_checked", "formations_checked",
 			"insufficient_funds_cases", "insufficient_collateral_cases", "consensus_accepted", "consensus_rejected_controls",
 			"boundary_renter_eq_cost", "boundary_renter_cost_minus_1", "boundary_renter_cost_plus_1",
